@@ -185,6 +185,89 @@ func ruleT15(c *Ctx) {
 			fmt.Sprintf("the text written before posting.Comment is %q: the comment value (everything after ';') follows verbatim", lits),
 			fmt.Sprintf("the lexer's comment value is everything after ';' (leading blank included) but the formatter writes %q before it: every formatting run inserts another blank, so formatting is not idempotent", lits))
 	}
+	if kinds["TokenComment"] {
+		// ... and the text that carries the comment is not trimmed afterwards: the comment is the last thing on a
+		// posting line, so a right trim of the rebuilt line cuts into the comment's own text.  A comment that
+		// consists of blanks only loses them in the first run and - the parser then sees an empty comment - its
+		// ';' in the second: format(format(x)) differs from format(x).
+		fssa := c.P.SSAPkg("internal/formatter")
+		isCommentLoad := func(v ssa.Value) bool {
+			ld, ok := v.(*ssa.UnOp)
+			if !ok || ld.Op != token.MUL {
+				return false
+			}
+			fa, ok := ld.X.(*ssa.FieldAddr)
+			return ok && typeHasSuffix(fa.X.Type(), "ast.Posting") && fieldVarOfAddr(fa).Name() == "Comment"
+		}
+		var carriesComment func(v ssa.Value, depth int) bool
+		carriesComment = func(v ssa.Value, depth int) bool {
+			for w := range backSlice(v) {
+				if isCommentLoad(w) {
+					return true
+				}
+				// the text of a strings.Builder: what was written into it
+				call, ok := w.(*ssa.Call)
+				if !ok || depth > 1 {
+					continue
+				}
+				cal := call.Call.StaticCallee()
+				if cal == nil || cal.Name() != "String" || cal.Signature.Recv() == nil || !typeHasSuffix(cal.Signature.Recv().Type(), "strings.Builder") || len(call.Call.Args) == 0 {
+					continue
+				}
+				recv := call.Call.Args[0]
+				if recv.Referrers() == nil {
+					continue
+				}
+				for _, r := range *recv.Referrers() {
+					wc, ok := r.(*ssa.Call)
+					if !ok || wc == call {
+						continue
+					}
+					for i, a := range wc.Call.Args {
+						if a == recv && i == 0 {
+							continue
+						}
+						if carriesComment(a, depth+1) {
+							return true
+						}
+					}
+				}
+			}
+			return false
+		}
+		nTrim := 0
+		for _, f := range c.P.ModuleFuncs() {
+			top := f
+			for top.Parent() != nil {
+				top = top.Parent()
+			}
+			if top.Pkg != fssa {
+				continue
+			}
+			for _, b := range f.Blocks {
+				for _, ins := range b.Instrs {
+					call, ok := ins.(*ssa.Call)
+					if !ok {
+						continue
+					}
+					cal := call.Call.StaticCallee()
+					if cal == nil || cal.Pkg == nil || cal.Pkg.Pkg.Path() != "strings" || len(call.Call.Args) == 0 {
+						continue
+					}
+					switch cal.Name() {
+					case "TrimRight", "TrimSpace", "Trim", "TrimSuffix", "TrimRightFunc", "TrimFunc":
+					default:
+						continue
+					}
+					nTrim++
+					c.check(!carriesComment(call.Call.Args[0], 0), "T15", funcName(f), "no right trim of a text that ends with the posting's comment: strings."+cal.Name(), call.Pos(),
+						"the trimmed text does not carry a posting's comment",
+						"a text that carries the posting's comment is trimmed on the right (strings."+cal.Name()+"): the comment is the end of the line, so the trim cuts the comment's own text - a comment made of blanks loses them and, one run later, its ';' (formatting is not idempotent, and the first run already changes the comment)")
+				}
+			}
+		}
+		c.note("T15: right trims in the formatter: %d", nTrim)
+	}
 	if kinds["TokenCommodity"] {
 		// a branch on the Quoted flag exists in the formatter and the parser derives the flag from the lexeme
 		readsQuoted := false
